@@ -28,6 +28,8 @@ NCPU = min(16, os.cpu_count() or 4)
 CXX = os.environ.get("LP_CXX", "g++")
 CXXFLAGS = ["-std=c++14", "-O1", "-g", "-fno-omit-frame-pointer", "-fsanitize=address,undefined",
             "-fno-sanitize-recover=all", "-w"]
+if os.environ.get("LP_COVERAGE") == "1":   # tools/coverage.py: line coverage of /repo/src under the correspondence runs
+    CXXFLAGS = [f for f in CXXFLAGS if not f.startswith("-fsanitize") and f != "-fno-sanitize-recover=all"] + ["--coverage", "-DHZ_COVERAGE"]
 ACCEPTED_AXIOMS = {"propext", "Classical.choice", "Quot.sound"}
 FORBIDDEN = re.compile(r"\bsorry\b|\badmit\b|^\s*axiom\s|\bnative_decide\b|\bbv_decide\b|implemented_by|\bunsafe\s|maxHeartbeats\s+0\b|\bofReduceBool\b", re.M)
 
@@ -45,18 +47,31 @@ def log(*a):
 
 
 class Lock:
+    """flock-based lock, re-entrant within this process (check() holds "lake" across pre_build, lake build,
+    audit and the copy of the driver; the functions it calls take the same lock again)"""
+    _held = {}     # path -> [file, depth]
+
     def __init__(self, name):
         os.makedirs(CACHE, exist_ok=True)
         self.path = os.path.join(CACHE, name + ".lock")
 
     def __enter__(self):
-        self.f = open(self.path, "w")
-        fcntl.flock(self.f, fcntl.LOCK_EX)
+        h = Lock._held.get(self.path)
+        if h:
+            h[1] += 1
+            return self
+        f = open(self.path, "w")
+        fcntl.flock(f, fcntl.LOCK_EX)
+        Lock._held[self.path] = [f, 1]
         return self
 
     def __exit__(self, *a):
-        fcntl.flock(self.f, fcntl.LOCK_UN)
-        self.f.close()
+        h = Lock._held[self.path]
+        h[1] -= 1
+        if h[1] == 0:
+            del Lock._held[self.path]
+            fcntl.flock(h[0], fcntl.LOCK_UN)
+            h[0].close()
 
 
 # ----------------------------------------------------------------------------------------------
@@ -140,7 +155,7 @@ def build_harness(prop, libdir):
         for n in os.listdir(libdir):
             if n.startswith("hz_%s_" % prop.lower()):
                 os.unlink(os.path.join(libdir, n))
-        objs = [os.path.join(libdir, "obj", o) for o in sorted(os.listdir(os.path.join(libdir, "obj")))]
+        objs = [os.path.join(libdir, "obj", o) for o in sorted(os.listdir(os.path.join(libdir, "obj"))) if o.endswith(".o")]
         r = run_cmd([CXX] + CXXFLAGS + ["-I" + os.path.join(REPO, "include"), "-I" + os.path.join(libdir, "gen"),
                                         "-I" + os.path.join(VERIF, "harness"), src] + objs + ["-lconfig++", "-o", exe + ".tmp"])
         if r.returncode != 0:
@@ -297,8 +312,19 @@ def run_impl(exe, reqs, workdir):
     return out
 
 
-def run_model(prop, reqs):
-    exe = os.path.join(LEAN, ".lake", "build", "bin", "drv_" + prop.lower())
+def regenerate_constants():
+    """anchored constants (translators/constants.py) are shared through LpModel/Interp.lean: every check
+    that builds Lean code first makes them those of the tree it checks.  Call with the lake lock held."""
+    spec = importlib.util.spec_from_file_location("lp_constants_tr", os.path.join(VERIF, "translators", "constants.py"))
+    m = importlib.util.module_from_spec(spec)
+    spec.loader.exec_module(m)
+    n = m.regenerate_all(REPO, LEAN)
+    return {p: dict(generated_rewritten=v["generated_rewritten"], changed_from_default=v["changed_from_default"],
+                    anchor_missing=v["anchor_missing"]) for p, v in n.items()}
+
+
+def run_model(prop, reqs, exe=None):
+    exe = exe or os.path.join(LEAN, ".lake", "build", "bin", "drv_" + prop.lower())
     lines = list(enumerate(reqs))
     # split across processes for speed
     n = max(1, min(NCPU, len(lines) // 200))
@@ -358,7 +384,16 @@ def check(prop, tier, seed, replay=None):
     fails = []          # dicts: kind ('proof'|'corr'|'prop'|'build'), clause, req, impl, model, detail
     notes = {}
 
+    # 0.+1. ONE critical section: the generated Lean sources live in the shared tree lean/, so regeneration,
+    # build, audit, leanchecker and the copy of the driver must not interleave with another check (which may
+    # run on a different LP_REPO and rewrite the generated files / rebuild the same oleans and binaries).
+    lake_cs = Lock("lake")
+    lake_cs.__enter__()
     # 0. translator tie: regenerate model sources from /repo's current text (DESIGN.md §4.5) ------
+    try:
+        notes["constants"] = regenerate_constants()
+    except Exception as e:
+        fails.append(dict(kind="corr", clause="translator (anchored constants) failed on the current source", detail=repr(e), req="", impl="", model=""))
     if hasattr(mod, "pre_build"):
         try:
             with Lock("lake"):
@@ -371,7 +406,10 @@ def check(prop, tier, seed, replay=None):
     obl = obligations(prop)
     discharged = 0
     audit_detail = {}
+    drv = None
     if ok:
+        drv = os.path.join(workdir, "drv_" + prop.lower())     # private copy: a later build cannot swap it
+        shutil.copy2(os.path.join(LEAN, ".lake", "build", "bin", "drv_" + prop.lower()), drv)
         res, aout = audit(prop)
         for n in obl:
             good, det = res.get(n, (False, "missing"))
@@ -393,6 +431,7 @@ def check(prop, tier, seed, replay=None):
         lc = lc_ok
         if not lc_ok:
             fails.append(dict(kind="proof", clause="leanchecker LpProofs." + prop, detail=lc_out, req="", impl="", model=""))
+    lake_cs.__exit__()
 
     # 2. library + harness ---------------------------------------------------------------------
     libdir, err = build_lib()
@@ -418,7 +457,7 @@ def check(prop, tier, seed, replay=None):
         else:
             reqs = list(mod.generate(tier, seed, ctx))
         impl = run_impl(exe, reqs, workdir)
-        model = run_model(prop, reqs)
+        model = run_model(prop, reqs, drv)
         for i, rq in enumerate(reqs):
             im, mo = impl.get(i, "harness-no-answer"), model.get(i, "driver-no-answer")
             try:
@@ -509,7 +548,7 @@ def check(prop, tier, seed, replay=None):
                   known_findings_printed=printed_kf, repo_hash=repo_hash(), notes=notes),
               assumptions=getattr(mod, "ASSUMPTIONS", []) + ["see DESIGN.md §3 for the trusted base"],
               wall_s=round(time.time() - t0, 2), violations=len(real))
-    if not replay:
+    if not replay and os.environ.get("LP_EVIDENCE_SKIP") != "1":
         write_evidence(prop, ev)
     shutil.rmtree(workdir, ignore_errors=True)
     log("%s %s seed=%d: %d requests, %d/%d obligations, %d failures (%d known), %.1fs" % (
